@@ -269,8 +269,11 @@ ApplyHead ==
                      /\ UNCHANGED <<evicting, wsize>>
                   [] it.code = "UPDATE" ->
                      LET npw == ent[e].pw + it.delta IN
+                     \* create/update race: the weight is remembered, the insert event schedules the entry when it
+                     \* arrives (D22: an untracked entry is not linked into the wheel by an UPDATE - with the entry
+                     \* pool it may be a free object by now)
                      IF ~ent[e].tr
-                     THEN /\ ent' = [ent EXCEPT ![e].pw = npw, ![e].sc = it.rs \/ @]
+                     THEN /\ ent' = [ent EXCEPT ![e].pw = npw]
                           /\ UNCHANGED <<mpend, evicting, wsize>>
                      ELSE IF it.delta = 0
                      THEN /\ ent' = [ent EXCEPT ![e].sc = it.rs \/ @]
